@@ -72,7 +72,9 @@ def gen(t, tier):
     if sc['kind'] == 'filelock' and sc['remove'] and not sc.get('unlink_fault') and t.chance(0.3):
         # the lock is a tile lock handed out by TileLocker (every lock() call of which may clean the lock directory), and other
         # requests of the server keep cleaning the lock directory (cleanup_lockdir) while the contenders lock and unlock
-        sc['tilelocker'] = {'cleanups': t.randint(1, 6), 'gap': t.pick([0, 0.001, 0.02])}
+        sc['tilelocker'] = {'cleanups': t.randint(1, 6), 'gap': t.pick([0, 0.001, 0.02]),
+                            # the wall clock is set back by ten minutes while locks are held: their files are "from the future"
+                            'clock_back': t.pick([None, None, 600.0])}
         sc['perm'] = None
     if sc['kind'] == 'semlock' and t.chance(0.3):
         # the semaphore's slot files live in the lock directory that TileLocker keeps cleaning (the default layout); a slot may
@@ -160,10 +162,36 @@ def run(sc, tape):
     faults = {}
     crashed = []
 
+    set_back = [0.0]
+    cleaning = {}            # task id -> total set-back when its cleanup_lockdir() pass began
+    straddled = [False]      # a cleanup pass that began before a set-back of the clock unlinked a lock file after it
+
+    def _mutex_kind():
+        # one specific history has its own signature (known_findings.json): a cleanup pass computed its expiry time, the wall
+        # clock was then set back, a lock taken after that looked ten minutes old to the pass and was unlinked
+        return 'mutex-cleanup-pass-straddles-clock-step' if straddled[0] else 'mutex'
+
+    if (sc.get('tilelocker') or {}).get('clock_back'):
+        import mapproxy.util.lock as _mlock
+        import mapproxy.cache.base as _mbase
+        _orig_cleanup = _mlock.cleanup_lockdir
+
+        def _tracked_cleanup(*a, **kw):
+            me = sched._me()
+            key_ = me.tid if me is not None else -1
+            cleaning[key_] = set_back[0]
+            try:
+                return _orig_cleanup(*a, **kw)
+            finally:
+                cleaning.pop(key_, None)
+        w.extra_patches.append((_mlock, 'cleanup_lockdir', _tracked_cleanup))
+        w.extra_patches.append((_mbase, 'cleanup_lockdir', _tracked_cleanup))
+
     def ev(tid, kind, extra=None):
         if kind != 'killed':
             sched.check_alive()
-        events.append((len(sched.log), tid, kind, extra, w.clock.now))
+        # (time as a monotonic clock would show it: set-backs of the wall clock are added back)
+        events.append((len(sched.log), tid, kind, extra, w.clock.now + set_back[0]))
 
     def make_lock(c):
         if sc['kind'] == 'semlock':
@@ -197,7 +225,7 @@ def run(sc, tape):
                 inside[tid] = len(sched.log)
                 ev(tid, 'enter')
                 if len(inside) > n_slots:
-                    viol.append(('mutex', 'contenders %s inside together (limit %d)' % (sorted(inside), n_slots)))
+                    viol.append((_mutex_kind(), 'contenders %s inside together (limit %d)' % (sorted(inside), n_slots)))
                     sched.abort('violation')
                 if h[0] == 'y':
                     for _ in range(h[1]):
@@ -206,7 +234,7 @@ def run(sc, tape):
                     import time
                     time.sleep(h[1])
                 if len(inside) > n_slots:
-                    viol.append(('mutex', 'contenders %s inside together (limit %d)' % (sorted(inside), n_slots)))
+                    viol.append((_mutex_kind(), 'contenders %s inside together (limit %d)' % (sorted(inside), n_slots)))
                     sched.abort('violation')
                 ev(tid, 'exit')
                 del inside[tid]
@@ -219,6 +247,10 @@ def run(sc, tape):
     unlink_count = [0]
 
     def fault_hook(op, key, proc):
+        if op == 'unlink' and cleaning:
+            me_ = sched._me()
+            if me_ is not None and me_.tid in cleaning and cleaning[me_.tid] != set_back[0]:
+                straddled[0] = True
         uf = sc.get('unlink_fault')
         if uf and op == 'unlink' and str(key).endswith('.lck'):
             n = unlink_count[0]
@@ -241,7 +273,7 @@ def run(sc, tape):
         return None
     flock_count = [0]
     flock_failed = []
-    if sc.get('unlink_fault') or sc.get('flock_fault'):
+    if sc.get('unlink_fault') or sc.get('flock_fault') or (sc.get('tilelocker') or {}).get('clock_back'):
         fs.fault_hook = fault_hook
 
     def on_yield(task, kind, key):
@@ -288,6 +320,11 @@ def run(sc, tape):
             def housekeeper():
                 import time
                 from mapproxy.util.lock import cleanup_lockdir
+                if sc['tilelocker'].get('clock_back'):
+                    time.sleep(0.003)
+                    sched.step_wall_clock(-sc['tilelocker']['clock_back'])
+                    set_back[0] += sc['tilelocker']['clock_back']
+                    faults['clock_set_back'] = 1
                 for _ in range(sc['tilelocker']['cleanups']):
                     # what the 50th TileLocker.lock() call of any request does (lock time-out 60 s)
                     cleanup_lockdir(LOCKDIR, max_lock_time=70, force=True)
